@@ -8,5 +8,9 @@ CONSTANTS
   PastEndRule = "ge"
   CompletionOrder = "publish-rewrite"
   Withdrawals = FALSE
+  ConcurrentWithdrawals = FALSE
+  HostReads = "snapshot"
+  Reannouncements = FALSE
+  ReannounceRule = "atomic"
 CHECK_DEADLOCK FALSE
 INVARIANTS ExactCalls EachNodeOnceInOrder BoundedCalls
